@@ -474,3 +474,95 @@ def label_row_ops(chk, prog, rule: str) -> int:
                 chk.violation(rule, where, norm(node)[:90], f"{what} of the user's weather index: with repeated labels every row sharing a label is affected - days of other "
                               "years vanish from the temperature series the crop calendar is built from", loc=fi.loc(node))
     return n
+
+
+_REQCOL_EXAMPLE = """
+def f(weather_df):
+    weather_df = weather_df.assign(Date=weather_df.index)
+    weather_df["MinTemp"] = weather_df["MinTemp"].round(1)
+    w2 = weather_df.reset_index()
+    w2.Date = w2["index"]
+    w2.loc[w2.MaxTemp < w2.MinTemp, "MaxTemp"] = 0
+    w2.insert(0, "ReferenceET", 1.0)
+    return w2
+"""
+
+
+def _required_store_sites(fn: ast.AST, formal: str):
+    """[(node, frame name, column, value expression)] - stores into a required weather column of a frame derived from `formal`"""
+    frames = {formal}
+    changed = True
+    while changed:
+        changed = False
+        for a in walk_no_nested(fn):
+            if isinstance(a, ast.Assign) and len(a.targets) == 1 and isinstance(a.targets[0], ast.Name) and a.targets[0].id not in frames:
+                core = a.value
+                while isinstance(core, (ast.Call, ast.Attribute, ast.Subscript)):
+                    core = core.func if isinstance(core, ast.Call) else core.value
+                if isinstance(core, ast.Name) and core.id in frames:
+                    frames.add(a.targets[0].id)
+                    changed = True
+    out = []
+    for a in walk_no_nested(fn):
+        if isinstance(a, (ast.Assign, ast.AugAssign)):
+            t = a.targets[0] if isinstance(a, ast.Assign) else a.target
+            fr = col = None
+            if isinstance(t, ast.Subscript) and isinstance(t.value, ast.Name) and isinstance(t.slice, ast.Constant):
+                fr, col = t.value.id, t.slice.value
+            elif isinstance(t, ast.Subscript) and isinstance(t.value, ast.Attribute) and t.value.attr in ("loc", "iloc", "at") and isinstance(t.value.value, ast.Name) \
+                    and isinstance(t.slice, ast.Tuple) and len(t.slice.elts) == 2 and isinstance(t.slice.elts[1], ast.Constant):
+                fr, col = t.value.value.id, t.slice.elts[1].value
+            elif isinstance(t, ast.Attribute) and isinstance(t.value, ast.Name):
+                fr, col = t.value.id, t.attr
+            if fr in frames and col in REQUIRED:
+                out.append((a, fr, col, a.value))
+        elif isinstance(a, ast.Call) and isinstance(a.func, ast.Attribute) and isinstance(a.func.value, ast.Name) and a.func.value.id in frames:
+            if a.func.attr == "assign":
+                for k in a.keywords:
+                    if k.arg in REQUIRED:
+                        out.append((a, a.func.value.id, k.arg, k.value))
+            elif a.func.attr == "insert" and len(a.args) >= 3 and isinstance(a.args[1], ast.Constant) and a.args[1].value in REQUIRED:
+                out.append((a, a.func.value.id, a.args[1].value, a.args[2]))
+    return out
+
+
+def _same_column_only(value: ast.AST, frames_col) -> bool:
+    """the stored value is computed from the same column of the same frame (a dtype / unit-free clean-up), not from the index or other columns"""
+    fr, col = frames_col
+    reads = []
+    for x in ast.walk(value):
+        if isinstance(x, ast.Attribute) and x.attr == "index":
+            return False
+        if isinstance(x, ast.Subscript) and isinstance(x.value, ast.Name) and isinstance(x.slice, ast.Constant) and isinstance(x.slice.value, str):
+            reads.append((x.value.id, x.slice.value))
+        elif isinstance(x, ast.Attribute) and isinstance(x.value, ast.Name) and x.attr in REQUIRED:
+            reads.append((x.value.id, x.attr))
+    return bool(reads) and all(r == (fr, col) for r in reads)
+
+
+def required_column_stores(chk, prog, rule: str) -> int:
+    """each weather variable is taken from the user's column of that name: no function that receives the weather frame writes into one of the
+    required columns (Date, MinTemp, MaxTemp, Precipitation, ReferenceET) - `F['Date'] = ...`, `F.Date = ...`, `F.loc[.., 'Date'] = ...`,
+    `F.assign(Date=...)`, `F.insert(.., 'Date', ..)` - from anything but that same column. In particular the Date column is never rebuilt from
+    the index: re-indexing the table must not change which day a record belongs to. Expected count on a healthy tree is zero: the matcher is
+    run on an embedded positive example first."""
+    ex = _required_store_sites(ast.parse(_REQCOL_EXAMPLE).body[0], "weather_df")
+    got = sorted((c, _same_column_only(v, (fr, c))) for _, fr, c, v in ex)
+    if got != [("Date", False), ("Date", False), ("MaxTemp", False), ("MinTemp", True), ("ReferenceET", False)]:
+        raise AnalysisError(f"{rule}: the matcher no longer recognises its positive example ({got})")
+    n = 0
+    formals = sorted(weather_frame_formals(prog))
+    for key, formal in formals:
+        fi = prog.funcs[key]
+        where = f"{fi.module}:{fi.qualname}"
+        chk.fn(key)
+        for node, fr, col, val in _required_store_sites(fi.node, formal):
+            n += 1
+            if _same_column_only(val, (fr, col)):
+                chk.ok(rule, where, norm(node)[:90], f"'{col}' rewritten from itself only")
+            else:
+                chk.violation(rule, where, norm(node)[:90], f"the weather column '{col}' of the user's table is overwritten" + (
+                    " from the index" if any(isinstance(x, ast.Attribute) and x.attr == "index" for x in ast.walk(val)) else "")
+                    + ": the value used for a day is no longer the one in the user's column of that name (a re-indexed table gives other results)", loc=fi.loc(node))
+    chk.ok(rule, "aquacrop", f"stores into required weather columns in {len(formals)} functions that receive the weather frame", f"{n} found; matcher exercised on the embedded example (5 sites)")
+    return len(formals)
